@@ -2,7 +2,6 @@ package c08
 
 import (
 	"fmt"
-	"os"
 	"sort"
 	"strings"
 
@@ -161,9 +160,6 @@ func (c *check) runListFamily(ctx *engine.Ctx, prop string, pi *propInfo) {
 	if len(items) < 2 {
 		return
 	}
-	if os.Getenv("C08_DEBUG_ITEMS") != "" {
-		ctx.Count("dbg:"+prop+" :: "+strings.Join(items, " | "), 1)
-	}
 	itemLists := make([]map[string][]string, len(items))
 	for i, it := range items {
 		f := []string{"prop:" + prop, "list-item"}
@@ -263,4 +259,27 @@ func (c *check) runListFamily(ctx *engine.Ctx, prop string, pi *propInfo) {
 			}
 		}
 	}
+}
+
+// customIdentAlone: the properties (of those the library supports) whose grammar accepts an
+// arbitrary identifier as the whole value: <family-name> (CSS Fonts 3 §3.1), <counter-name>
+// (CSS Lists 3 §4), <counter-style-name> (CSS Lists 3 §3.4), the page name (CSS Page 3 §9.2) and
+// the grid line names (CSS Grid 1 §8.3). Everywhere else the nonsense identifier `zzq` is an
+// invalid value: the declaration must be dropped.
+var customIdentAlone = map[string]bool{
+	"font-family": true, "counter-increment": true, "counter-reset": true, "counter-set": true, "list-style-type": true, "list-style": true, "page": true,
+	"grid-row-start": true, "grid-row-end": true, "grid-column-start": true, "grid-column-end": true, "grid-row": true, "grid-column": true, "grid-area": true,
+}
+
+// checkNonsenseIdent: the differential probe of part a (does `P: zzq` validate?) doubles as an
+// oracle where the grammar has no custom identifier.
+func (c *check) checkNonsenseIdent(ctx *engine.Ctx, prop string, pi *propInfo) {
+	ctx.Count("a:nonsense-identifier-tried", 1)
+	if !pi.identAny || customIdentAlone[prop] {
+		return
+	}
+	feats := []string{"prop:" + prop, "nonsense-identifier"}
+	got, _ := c.canonOf(ctx, "a", feats, prop+":zzq")
+	ctx.Fail(engine.Failure{Clause: "invalid-value-accepted", Features: feats, Case: prop + ":zzq",
+		Detail: "the grammar of " + prop + " has no custom identifier: the declaration must be dropped; the library keeps it as\n" + got})
 }
